@@ -37,6 +37,10 @@ class _Capture(logging.Handler):
 CAPTURE = _Capture()
 
 
+def _quiet_print(*a, **k):
+    pass
+
+
 def load():
     """Import the stack from the tree under test and virtualise it."""
     global _j1939, _can, _ecu_mod
@@ -56,6 +60,9 @@ def load():
     lg.propagate = False
     lg.addHandler(CAPTURE)
     sk.install(("j1939",))
+    for name, mod in list(sys.modules.items()):
+        if mod is not None and (name == "j1939" or name.startswith("j1939.")):
+            mod.__dict__["print"] = _quiet_print      # the stack prints diagnostics to stdout
     _j1939, _can, _ecu_mod = j1939, can, ecu_mod
     return j1939
 
@@ -123,7 +130,10 @@ class Stack:
                            timestamp=self.world.sim.now, check=False)
         n = len(CAPTURE.records)
         self.received.append((self.world.sim.now, frame))
-        self.listener.on_message_received(msg)
+        try:
+            self.listener.on_message_received(msg)
+        except Exception as e:   # noqa - "may raise to the caller that fed them in": recorded, never a verdict by itself
+            self.notify_exc.append((self.world.sim.now, "%s: %s" % (type(e).__name__, str(e)[:120])))
         if len(CAPTURE.records) > n:
             for r in CAPTURE.records[n:]:
                 if r[0].endswith("electronic_control_unit"):
